@@ -25,16 +25,21 @@ from xknx.telegram.apci import GroupValueResponse, GroupValueWrite  # noqa: E402
 from pyvc.api import Bool  # noqa: E402
 
 
-@lemma("C07", params=dict(payload=PAYLOAD, response=Bool(), seen_before=Bool()), family=lambda: [dict(T=c) for c in dpt_classes()])
-def set_decoded_data_never_raises(T, payload, response, seen_before):
+@lemma("C07", params=dict(payload=PAYLOAD, response=Bool(), seen_before=Bool(), others_failed=Bool()), family=lambda: [dict(T=c) for c in dpt_classes()])
+def set_decoded_data_never_raises(T, payload, response, seen_before, others_failed):
     """The call the telegram consumer makes *before* its own error handling: for a group address
-    configured with any transcoder T and any payload it returns normally; decoded_data is then either
+    configured with any transcoder T and any payload - and whatever decoding errors this or other addresses
+    had before - it returns normally; decoded_data is then either
     unset (decoding failed with a declared error, address remembered) or (T, value)."""
     table = GroupAddressDPT()
     dst = GroupAddress(0x0901)
     table._ga_dpts[dst.raw] = T
     if seen_before:
         table.ga_decoding_error.add(dst)
+    if others_failed:
+        # the table's state after any history: other addresses may have had decoding errors before
+        table.ga_decoding_error.add(GroupAddress(0x0902))
+        table.ga_decoding_error.add(GroupAddress(0x7FFF))
     apci = GroupValueResponse(payload) if response else GroupValueWrite(payload)
     telegram = Telegram(destination_address=dst, payload=apci)
     table.set_decoded_data(telegram)
